@@ -24,8 +24,9 @@ def sh(cmd, **kw):
     return subprocess.run(cmd, shell=True, stdout=subprocess.PIPE, stderr=subprocess.STDOUT, text=True, **kw)
 
 
-def cargo_test(wt, extra=""):
-    r = sh("cd %s/rust/core && cargo test --offline --no-fail-fast %s 2>&1 | grep -E '^test result|^error' " % (wt, extra))
+def cargo_test(wt, extra="", hooks=False):
+    flags = 'RUSTFLAGS="--cfg lucid_suggest_verif" CARGO_TARGET_DIR=%s/rust/core/target-hooks ' % wt if hooks else ""
+    r = sh("cd %s/rust/core && %scargo test --offline --no-fail-fast %s 2>&1 | grep -E '^test result|^error|panicked|unsafe precondition|SIGABRT|signal' " % (wt, flags, extra))
     return r.stdout
 
 
@@ -65,13 +66,15 @@ def main():
     assert os.path.isdir(wt), r.stdout
     try:
         shutil.copy(os.path.join(dest, "seed_demo.rs"), os.path.join(wt, "rust/core/tests/seed_demo.rs"))
-        before = cargo_test(wt, "--test seed_demo")
+        hooks = "lucid_suggest_verif" in open(os.path.join(dest, "seed_demo.rs")).read() or "lucid_suggest_verif" in open(os.path.join(dest, "notes.md")).read()
+        before = cargo_test(wt, "--test seed_demo", hooks)
         demo_passes_before = "test result: ok" in before
         ap = sh("git -C %s apply %s" % (wt, os.path.join(dest, "patch.diff")))
         applies = ap.returncode == 0
         after_all = cargo_test(wt)
         tests_same = "207 passed; 3 failed" in after_all and "12 passed; 0 failed" in after_all
-        demo_fails_after = "FAILED" in cargo_test(wt, "--test seed_demo")
+        after_demo = cargo_test(wt, "--test seed_demo", hooks)
+        demo_fails_after = "FAILED" in after_demo or "test result: ok" not in after_demo
         os.remove(os.path.join(wt, "rust/core/tests/seed_demo.rs"))
         sh("cd %s && git clean -fdq -e rust/core/target" % wt)
         meta.update({"patch_applies": applies, "repo_tests_unchanged": tests_same, "demo_passes_without_patch": demo_passes_before,
